@@ -21,7 +21,7 @@ StaticInfo(t) ==
   IF k \notin DOMAIN TestKM THEN [proc |-> "unknown"]
   ELSE LET e == TestKM[k] IN
        IF e.proc # "set" THEN [proc |-> e.proc]
-       ELSE [proc |-> "set", var |-> e.var, vec |-> e.vec, idx |-> p.idx, val |-> ReadValue(e, p.rest)]
+       ELSE [proc |-> "set", var |-> e.var, vec |-> e.vec, idx |-> p.idx, val |-> ValueOf(e, p)]
 Meaningful(t) == HasNonBlank(t) \/ t = ""
 \* memo (TLC re-evaluates operators at every use): for a pending continued line c (0: none) and the
 \* next physical line a, the logical line and what it says; PendTab[c]: the pending text on its own
@@ -108,7 +108,7 @@ Spec == Init /\ [][Next]_vars
 \* "Arbitrary, malformed or truncated parameter files ... either parse into an internally consistent
 \* object or are rejected": the incremental machine and the fold used for trace validation agree on
 \* verdict and variables for every input, whether or not the vLast line ends with a newline
-FoldAgrees == vPh = "done" => \A nl \in BOOLEAN : LET x == TestRun(TextsOf(vHist), nl) IN x.verdict = vRes /\ x.st.vars = vSt.vars
+FoldAgrees == vPh = "done" => \A nl \in BOOLEAN : LET x == TestRun(vHist, nl) IN x.verdict = vRes /\ x.st.vars = vSt.vars
 \* "vectorised keys are stored at the index given" (and nothing else changes)
 StoredAtIndex == vLast.kind = "AssignIndexed" =>
                    /\ vSt.vars[vLast.var][vLast.idx] = vLast.val
